@@ -188,6 +188,34 @@ pub fn oracle(sc: &Scenario, out: &Outcome) -> Vec<Violation> {
             }
         }
     }
+    // a mirror that is healthy for the whole run and never behind (under the sim its channel never fills)
+    // receives every request sent to its server: what a sibling mirror does must not thin out its copy
+    let faulty_first = behaviour != "healthy";
+    for sv in sc.servers.iter().filter(|s| s.label.contains("mirror")) {
+        let first_mirror = sv.addr.starts_with("pg-m0:") || (layout == "one-on-1" && sv.addr.starts_with("pg-m1:"));
+        if faulty_first && first_mirror {
+            continue; // this is the mirror whose behaviour the scenario varies
+        }
+        let t = match target_host(&sv.label) {
+            Some(t) => t,
+            None => continue,
+        };
+        let mut got: Vec<Msg> = Vec::new();
+        for conn in conn_ids(log) {
+            if conn_server(log, conn) == sv.addr {
+                got.extend(brecv_of(log, conn).into_iter().map(|(_, m, _)| m.clone()).filter(|m| m.code != b'X'));
+            }
+        }
+        let want: Vec<Msg> = target_msgs[t].iter().filter(|m| m.code != b'X').cloned().collect();
+        if got.len() < want.len() && is_subsequence(&got, &want).is_none() {
+            let missing = want.iter().find(|m| !got.contains(m)).map(describe).unwrap_or_default();
+            vs.push(v(
+                "C20.healthy-mirror-incomplete",
+                format!("C20.healthy-mirror-incomplete:{}", ctx),
+                format!("healthy mirror {} received {} of the {} messages sent to server {} (first missing: {})", sv.addr, got.len(), want.len(), t, missing),
+            ));
+        }
+    }
     for conn in conn_ids(log) {
         let srv = conn_server(log, conn);
         let label = match sc.servers.iter().find(|s| s.addr == srv) {
